@@ -5,6 +5,7 @@ package main
 // list of hosts that received it (backend log) and the single reply the client got.
 
 import (
+	"context"
 	"fmt"
 	"strings"
 	"time"
@@ -587,6 +588,7 @@ func genRetry(ctx *Ctx, c04 bool) {
 	twoConnsPhase(ctx, n, kinds)
 	saturationPhase(ctx, n)
 	idleClosePhase(ctx, n)
+	sendFailedPhase(ctx)
 	// graph requests with the idempotent-graph option are exercised in the thorough tier by a second proxy
 	if ctx.Thorough {
 		e2, err := newRetryEnvGraph(ctx, n)
@@ -740,5 +742,103 @@ func idleClosePhase(ctx *Ctx, n int) {
 		if !e.healHost(h) {
 			panic("host did not heal after idle close")
 		}
+	}
+}
+
+// ---------- a send that fails must leave nothing behind ----------
+// blockReq is a proxycore.Request whose OnResult can hold the connection's reader goroutine.
+type blockReq struct {
+	frm     interface{}
+	entered chan struct{}
+	release chan struct{}
+	closed  chan error
+	block   bool
+}
+
+func (w *blockReq) Frame() interface{}     { return w.frm }
+func (w *blockReq) IsPrepareRequest() bool { return false }
+func (w *blockReq) Execute(next bool)      {}
+func (w *blockReq) OnClose(err error)      { w.closed <- err }
+func (w *blockReq) OnResult(_ *frame.RawFrame) {
+	if w.block {
+		close(w.entered)
+		<-w.release
+	}
+}
+
+// sendFailedPhase drives one backend connection of proxycore through its public API: the
+// connection is closed while its reader goroutine is still busy delivering an earlier response
+// (the window between the socket failing and ClientConn.Closing running), requests are sent in
+// that window, and when the reader finally runs Closing we count the requests whose Send
+// returned an error and that are nonetheless notified through OnClose.  request.executeInternal
+// has moved such a request on to the next host when Send failed, so a notification makes an
+// idempotent request run on a further host although no attempt failed -- or answers "no more
+// hosts" while an attempt is in flight -- and tells a non-idempotent one that its connection
+// was lost while it is executing elsewhere.
+func sendFailedPhase(ctx *Ctx) {
+	prefix, port := px.Alloc()
+	be := fb.New(prefix, port)
+	if err := be.StartHost(1); err != nil {
+		panic(err)
+	}
+	be.SetTopology(1)
+	defer be.Shutdown()
+	for round := 0; round < ctx.Scale(6, 60); round++ {
+		c, cancel := context.WithTimeout(context.Background(), 10*time.Second)
+		cl, err := proxycore.ConnectClient(c, proxycore.NewEndpoint(fmt.Sprintf("%s:%d", be.IP(1), be.Port)), proxycore.ClientConnConfig{})
+		if err != nil {
+			panic(err)
+		}
+		if _, err := cl.Handshake(c, primitive.ProtocolVersion4, nil); err != nil {
+			panic(err)
+		}
+		q := func(tok string) interface{} {
+			return frame.NewFrame(primitive.ProtocolVersion4, 0, &message.Query{Query: "SELECT v FROM ks.t WHERE k = 'tok:" + tok + "'", Options: &message.QueryOptions{}})
+		}
+		r0 := &blockReq{frm: q(fmt.Sprintf("sf%dr0", round)), entered: make(chan struct{}), release: make(chan struct{}), closed: make(chan error, 1), block: true}
+		sends := 20 + ctx.Rng.Intn(40)
+		notified, failed := 0, 0
+		note := "send-in-the-window-between-close-and-Closing"
+		if err := cl.Send(r0); err != nil {
+			note = "setup-failed"
+		} else {
+			select {
+			case <-r0.entered: // the reader goroutine is inside OnResult
+			case <-time.After(5 * time.Second):
+				note = "setup-failed"
+			}
+		}
+		if note != "setup-failed" {
+			_ = cl.Close()
+			var failedReqs, okReqs []*blockReq
+			for i := 0; i < sends; i++ {
+				r := &blockReq{frm: q(fmt.Sprintf("sf%dr%d", round, i+1)), closed: make(chan error, 1)}
+				if err := cl.Send(r); err != nil {
+					failedReqs = append(failedReqs, r)
+				} else {
+					okReqs = append(okReqs, r)
+				}
+			}
+			failed = len(failedReqs)
+			close(r0.release)
+			deadline := time.After(3 * time.Second)
+			for _, r := range okReqs { // Closing notifies every request still registered; wait until it has
+				select {
+				case <-r.closed:
+				case <-deadline:
+				}
+			}
+			time.Sleep(100 * time.Millisecond)
+			for _, r := range failedReqs {
+				select {
+				case <-r.closed:
+					notified++
+				default:
+				}
+			}
+			ctx.Count(fmt.Sprintf("send-failed:%d-of-%d", failed/10*10, sends/10*10))
+		}
+		cancel()
+		ctx.Emit(hv.L(hv.I(3), hv.I(int64(sends))), hv.L(hv.I(int64(notified))), fmt.Sprintf("%s failed=%d", note, failed))
 	}
 }
